@@ -399,11 +399,18 @@ class Parser:
                     raise JSONPathSyntaxError(
                         "leading zero in index selector", token=stream.current
                     )
+                try:
+                    index = int(stream.current.value)
+                except ValueError:
+                    # The integer token also matches an exponent, as in `1e2`.
+                    raise JSONPathSyntaxError(
+                        "invalid index selector", token=stream.current
+                    ) from None
                 list_items.append(
                     IndexSelector(
                         env=self.env,
                         token=stream.current,
-                        index=int(stream.current.value),
+                        index=index,
                     )
                 )
             elif stream.current.kind == TOKEN_BARE_PROPERTY:
